@@ -92,6 +92,10 @@ func ParseValue(p ParseParams) (ast.Value, error) {
 	if err != nil {
 		return value, err
 	}
+	// The source must be exactly one value: anything after it is a syntax error.
+	if _, err := expect(parser, lexer.EOF); err != nil {
+		return nil, err
+	}
 	return value, nil
 }
 
